@@ -421,3 +421,39 @@ def r6(ctx: Ctx) -> None:
         import ast as _ast
 
         ctx.check(a is not None and _ast.unparse(a) == "self.registered_classes", s.caller, s.node, "every class lookup of the runner includes the registered classes", "optional_class_list=self.registered_classes", _ast.unparse(a) if a is not None else "missing")
+
+
+def _rooted_at_config(t: Term) -> bool:
+    """t is a pure access path (subscripts / attributes) into the runner's settings"""
+    t = strip_ver(t)
+    while t[0] in ("sub", "attr"):
+        if t == ("attr", ("sym", "self"), "settings"):
+            return True
+        t = t[1]
+    return t in (("sym", "whole_json"), ("sym", "target_json"))
+
+
+@rule("C18.R7", "the configuration is read-only: groups are expanded on copies, so what one group consumes (count, range, prefix) is still there for the groups that extend it", "T1 who-may-write (alias form): no in-place change through an access path into the settings", floor=4)
+def r7(ctx: Ctx) -> None:
+    from .events import MUTATORS
+
+    n = 0
+    funcs = [f for f in ctx.program.all_functions() if f.outer is None and (f.module.name.startswith("pams.runners") or f.qualname == JE)]
+    for f in funcs:
+        for p in ctx.paths(f.qualname):
+            for e in p.walk_events(True):
+                base = None
+                if e.kind in ("store", "del") and e.attr is None and e.base is not None:
+                    base = e.base
+                elif e.kind == "call" and e.recv is not None and e.name in MUTATORS and e.site.how in ("external", "unknown"):
+                    base = e.recv
+                if base is None:
+                    continue
+                b = strip_ver(base)
+                if _rooted_at_config(b):
+                    ctx.violated(f, e.node, "settings are never changed in place (a parent group read later must still carry its count / range / prefix)", "changes go to the copy returned by json_extends", f"{short(b)} is the configuration itself, not a copy")
+                elif any(s[0] == "call" and (key(s[1]).endswith("json_extends") or (s[1][0] == "attr" and s[1][2] == "copy")) for s in subterms(b)) or (b[0] == "sym" and (b[1].startswith("new") or "ψ" in b[1] or "φ" in b[1])):
+                    if any(s[0] == "call" and (key(s[1]).endswith("json_extends") or (s[1][0] == "attr" and s[1][2] == "copy")) for s in subterms(b)):
+                        n += 1
+                        ctx.holds(f, e.node, "in-place change of a group's settings happens on a copy", "copy returned by json_extends / .copy()", short(b)[:120])
+    ctx.require(n >= 4, "in-place changes of expanded group settings not found (8 confirmed by reading)")
